@@ -476,6 +476,10 @@ def run(ctx):
                 what = {"C": "copied snapshot does not restore identically from the destination",
                         "W": "rewrite does not remove exactly the excluded paths",
                         "R": "repair_snapshots: intact repository changed, or a file kept without the marker lost its content"}[m]
+                if m == "R" and d.get("merge_self_ok") == "0":
+                    what = "repair_snapshots: a repaired snapshot does not merge to the union of its paths (a tree written by repair is out of name order)"
+                elif m == "R" and d.get("lookup_ok") == "0":
+                    what = "repair_snapshots: an entry of a repaired snapshot is not found by path"
                 viol.append((what, ln, out[:600], None))
             if len(samples) < 6 and m in "CWR" and not any(s.get("case", "")[0] == m for s in samples):
                 samples.append({"case": ln, "impl": out[:400]})
